@@ -200,24 +200,71 @@ def f32(x):
     return struct.unpack("f", struct.pack("f", x))[0]
 
 
+def round_fmt(x, prec, emin):
+    """round the non-negative Fraction x to a binary format (nearest, ties to even); returns a Fraction"""
+    from fractions import Fraction
+    if x == 0:
+        return Fraction(0)
+    e = 0                                   # 2^e <= x < 2^(e+1)
+    while Fraction(2) ** (e + 1) <= x:
+        e += 1
+    while Fraction(2) ** e > x:
+        e -= 1
+    u = max(e, emin) - (prec - 1)           # exponent of one ulp
+    q = x / Fraction(2) ** u
+    n = q.numerator // q.denominator
+    r = q - n
+    if r > Fraction(1, 2) or (r == Fraction(1, 2) and n % 2 == 1):
+        n += 1
+    return n * Fraction(2) ** u
+
+
+def dyadic_fr(x):
+    """exact (m, e) of a dyadic Fraction"""
+    if x == 0:
+        return (0, 0)
+    n, d = x.numerator, x.denominator
+    e = 0
+    while n % 2 == 0:
+        n //= 2
+        e += 1
+    e -= d.bit_length() - 1
+    if d & (d - 1):
+        raise TranslateError("not a dyadic number: %r" % x)
+    return (n, e)
+
+
+# the floating-point types the harness instantiates: name -> (precision, emin).  For `mf8` (the harness' 8-bit class)
+# literals of type double are converted by rounding to the format, `numeric_limits<MF8>::epsilon()` is 2^-3.
+FORMATS = (("f32", 24, -126), ("f64", 53, -1022), ("f80", 64, -16382), ("mf8", 4, -6))
+
+
 def default_eps(expr, what):
-    """evaluate DefaultEpsilon<T,style>::value() for float and double; returns {T: (m,e)}"""
+    """evaluate DefaultEpsilon<T,style>::value() for float, double, long double and the minifloat; returns {T: (m,e)}"""
+    from fractions import Fraction
     e = re.sub(r"\s+", "", expr)
     EPS = "std::numeric_limits<typenameEpsilonType<T>::Type>::epsilon()"
     LIT = r"(\d+(?:\.\d*)?(?:[eE][-+]?\d+)?)"
     res = {}
     m = re.fullmatch(re.escape(EPS) + r"\*" + LIT, e)
     if m:
-        c = float(m.group(1))
-        for T, me in (("f32", 2.0 ** -23), ("f64", 2.0 ** -52)):
-            v = me * c                       # computed in double, converted to T on return
-            res[T] = dyadic(f32(v) if T == "f32" else v)
+        c = Fraction(float(m.group(1)))      # the literal is a double
+        for T, prec, emin in FORMATS:
+            me = Fraction(2) ** (1 - prec)
+            if T == "f32":                   # float * double is computed in double, converted to float on return
+                v = round_fmt(round_fmt(me * c, 53, -1022), prec, emin)
+            elif T == "mf8":                 # MF8 * double: the double is converted to MF8 first
+                v = round_fmt(me * round_fmt(c, prec, emin), prec, emin)
+            else:
+                v = round_fmt(me * c, prec, emin)
+            res[T] = dyadic_fr(v)
         return res, "machine epsilon * %s" % m.group(1)
     m = re.fullmatch(r"std::max<typenameEpsilonType<T>::Type>\(" + re.escape(EPS) + "," + LIT + r"\)", e)
     if m:
-        c = float(m.group(1))
-        res["f32"] = dyadic(max(2.0 ** -23, f32(c)))
-        res["f64"] = dyadic(max(2.0 ** -52, c))
+        c = Fraction(float(m.group(1)))
+        for T, prec, emin in FORMATS:
+            me = Fraction(2) ** (1 - prec)
+            res[T] = dyadic_fr(max(me, round_fmt(c, prec, emin)))
         return res, "max(machine epsilon, %s)" % m.group(1)
     raise TranslateError("%s: default epsilon expression outside the grammar: %r" % (what, expr))
 
@@ -276,7 +323,7 @@ def translate(repo):
         if len(ms) != 1:
             raise TranslateError("DefaultEpsilon<T, %s> not found exactly once" % st)
         vals, how = default_eps(ms[0], "DefaultEpsilon<T,%s>" % st)
-        for T in ("f32", "f64"):
+        for T, _, _ in FORMATS:
             out.append("/-- %s -/" % how)
             out.append("def defaultEps_%s_%s : Dy := Dy.mk2 (%d) (%d)" % (st, T, vals[T][0], vals[T][1]))
     out.append("")
